@@ -9,7 +9,10 @@ RULE_FRONTIER = (
     "turn_restriction, combined, no_restriction; tables written to files: class file, restriction CSV in mixed units, "
     "turn CSV) and the services' build(query), optionally under EdgeCutFrontierModel; valid_frontier on every "
     "(previous edge, edge). Deterministic families first: every unit pair x every restriction kind with limits at the "
-    "vehicle's converted value and at value*(1+-2^-20), ill-typed/missing vehicle parameters and axle counts, restriction "
+    "vehicle's converted value and at value*(1+-2^-20), same-unit limits exactly at / one float below / one float above the vehicle's "
+    "value (S decides exactly there: at the limit is admitted), the two tables read by header name (restricted-turn CSV, vehicle "
+    "restriction CSV) written with permuted column order and unrelated columns before / between / after (layout = function of "
+    "the table content), road-class ids over the full u8 range with ids that differ by multiples of 64, ill-typed/missing vehicle parameters and axle counts, restriction "
     "rows the builder must refuse, road-class queries (numeric, names, mixed, empty, out of range, ill-typed; with and "
     "without mapping), short class table, turn pairs, combined models of 0-4 inner models (early false, error order, "
     "nesting), edge cuts; then random configurations. I vs M bit-exact; S = admissibility from the raw tables over exact "
@@ -171,9 +174,11 @@ def run(chk):
         if not chk.replay:
             for f in sorted(glob.glob(os.path.join(vf.ROOT, "corpus", "C04", "*.json"))):
                 name = os.path.basename(f)[:-5]
-                rc = vf.run_stream(binp, "search", 1, chk.seed, os.path.join(chk.outdir, "corpus_" + name), shards=1, replay=f)
-                rc.name = "search"
-                skip_ties(rc)
+                cstream = "frontier" if json.load(open(f)).get("stream") == "frontier" else "search"
+                rc = vf.run_stream(binp, cstream, 1, chk.seed, os.path.join(chk.outdir, "corpus_" + name), shards=1, replay=f)
+                rc.name = cstream
+                if cstream == "search":
+                    skip_ties(rc)
                 chk.coverage["streams"].setdefault("corpus", {"cases": 0, "rule": "corpus/C04/*.json replayed"})["cases"] += 1
                 vf.compare(chk, rc, classify=classify, binpath=binp, stream_label="corpus:" + name)
         n = 6000 if thorough else 450
